@@ -137,6 +137,7 @@ type Obligation struct {
 	Output  string
 	File    string
 	vc      *VC
+	Block   int
 }
 
 // ---------------------------------------------------------------------------
@@ -188,6 +189,7 @@ type Frame struct {
 	modCheck bool
 	modTargets []modTarget
 	decEntry string
+	ordinal map[ssa.Instruction]int
 }
 
 type retEdge struct {
@@ -228,10 +230,15 @@ type VC struct {
 	inlined map[string]bool
 	pending []pendingFact
 	specUsed map[string]bool
+	oblNames map[string]int
+	ssubSeen map[string]bool
+	lineTag  []int // block index (top frame) in which each line was emitted; -1 = unconditional
+	curBlock int
+	anc      map[int]map[int]bool // block -> set of ancestor blocks (incl. itself)
 }
 
 func newVC(P *Prog, unit string, cur *types.Package) *VC {
-	vc := &VC{P: P, S: newSorts(), unit: unit, trusted: map[string]bool{}, heapSort: map[string]string{}, curPkg: cur}
+	vc := &VC{P: P, S: newSorts(), unit: unit, trusted: map[string]bool{}, heapSort: map[string]string{}, curPkg: cur, curBlock: -1}
 	for _, s := range P.sortsDeclared {
 		vc.S.decls = append(vc.S.decls, fmt.Sprintf("(declare-sort %s 0)", s))
 		vc.S.ghostSorts[s] = true
@@ -239,10 +246,15 @@ func newVC(P *Prog, unit string, cur *types.Package) *VC {
 	return vc
 }
 
+func (vc *VC) emit(l string) {
+	vc.lines = append(vc.lines, l)
+	vc.lineTag = append(vc.lineTag, vc.curBlock)
+}
+
 func (vc *VC) fresh(prefix, sort string) string {
 	vc.nfresh++
 	n := fmt.Sprintf("%s!%d", mangle(prefix), vc.nfresh)
-	vc.lines = append(vc.lines, fmt.Sprintf("(declare-const %s %s)", n, sort))
+	vc.emit(fmt.Sprintf("(declare-const %s %s)", n, sort))
 	return n
 }
 
@@ -250,7 +262,7 @@ func (vc *VC) assume(t string) {
 	if t == "true" || t == "" {
 		return
 	}
-	vc.lines = append(vc.lines, "(assert "+t+")")
+	vc.emit("(assert "+t+")")
 }
 
 func (vc *VC) assumeG(guard, t string) {
@@ -261,16 +273,16 @@ func (vc *VC) assumeG(guard, t string) {
 		vc.assume(t)
 		return
 	}
-	vc.lines = append(vc.lines, "(assert (=> "+guard+" "+t+"))")
+	vc.emit("(assert (=> "+guard+" "+t+"))")
 }
 
 func (vc *VC) comment(s string) {
-	vc.lines = append(vc.lines, "; "+strings.ReplaceAll(s, "\n", " "))
+	vc.emit("; "+strings.ReplaceAll(s, "\n", " "))
 }
 
 func (vc *VC) define(prefix, sort, term string) string {
 	n := vc.fresh(prefix, sort)
-	vc.lines = append(vc.lines, fmt.Sprintf("(assert (= %s %s))", n, term))
+	vc.emit(fmt.Sprintf("(assert (= %s %s))", n, term))
 	return n
 }
 
@@ -286,7 +298,14 @@ func (vc *VC) unsupportedf(format string, a ...any) {
 
 // oblige records an obligation: under guard, goal must hold. Afterwards the goal is assumed.
 func (vc *VC) oblige(name, kind string, props []string, guard, goal, src string) *Obligation {
-	o := &Obligation{Name: name, Func: vc.unit, Kind: kind, Props: props, Prefix: len(vc.lines), Guard: guard, Goal: goal, Src: src, vc: vc}
+	if vc.oblNames == nil {
+		vc.oblNames = map[string]int{}
+	}
+	vc.oblNames[name]++
+	if n := vc.oblNames[name]; n > 1 {
+		name = fmt.Sprintf("%s@%d", name, n)
+	}
+	o := &Obligation{Name: name, Func: vc.unit, Kind: kind, Props: props, Prefix: len(vc.lines), Guard: guard, Goal: goal, Src: src, vc: vc, Block: vc.curBlock}
 	vc.obls = append(vc.obls, o)
 	vc.assumeG(guard, goal)
 	return o
@@ -372,11 +391,22 @@ func (vc *VC) havocAll(st *State) {
 	vc.maxEpoch++
 	st.epoch = vc.maxEpoch
 	st.heaps = map[string]string{}
+	// ghost variables not yet read in this state get their name from the new epoch; the others are renewed
 	for g := range st.ghosts {
+		delete(st.ghosts, g)
+	}
+}
+
+// havocHeaps forgets every heap but keeps ghost variables
+func (vc *VC) havocHeaps(st *State) {
+	for _, g := range vc.P.ghostOrder {
 		if gv := vc.P.ghosts[g]; gv != nil && !gv.Const {
-			st.ghosts[g] = vc.fresh("g_"+g, vc.S.tySort(vc.tyOfTypeExpr(gv.Type)))
+			vc.ghost(st, g)
 		}
 	}
+	vc.maxEpoch++
+	st.epoch = vc.maxEpoch
+	st.heaps = map[string]string{}
 }
 
 func sortedKeys[V any](m map[string]V) []string {
